@@ -5,12 +5,12 @@
    Per-thread bounded queues use the sequential layer of M-BQ (ideal arithmetic) for byte accounting.
    Definitions only. *)
 From Coq Require Import List NArith Arith Bool.
-From Quill Require Import Queue.BQDefs.
+From Quill Require Import Queue.BQDefs BT.BTModel.
 Import ListNotations.
 Local Open Scope N_scope.
 
 (* ------------------------------------------------------------------ events *)
-Inductive kind := KLog | KFlush | KInitBt (cap : nat) | KFlushBt.
+Inductive kind := KLog | KFlush | KInitBt (cap : nat) (flvl : N) | KFlushBt.
 Inductive fmtres := FOk | FStdThrow | FOtherThrow.   (* what the statement's user formatter does *)
 
 Record ev := { eid : N; ets : N; ekind : kind; elg : nat; elvl : N; esz : N; efmt : fmtres }.
@@ -30,7 +30,9 @@ Record cfg := {
   c_bits : N;           (* width of the invalid-thread-context counter *)
   c_refresh2 : bool;    (* cache refreshed again after ts_now is read (F5) *)
   c_catch_all : bool;   (* non-std exceptions of user formatters are contained (F4) *)
-  c_report_first : bool (* failure counters are reported right before an exited thread's context is removed (F9) *)
+  c_report_first : bool;(* failure counters are reported right before an exited thread's context is removed (F9) *)
+  c_bt : bt_cfg;        (* BacktraceStorage facts (index reset, capacity-0 guard) *)
+  c_bt_catch : bool     (* a throwing sink during a backtrace replay is contained per event (F6) *)
 }.
 
 (* ------------------------------------------------------------------ state *)
@@ -50,8 +52,19 @@ Definition thr0 : thr :=
   {| q := bq_init; qev := []; tbuf := []; tcap := 0; texists := false; tvalid := true; failc := 0;
      pend := None; counted := false; wflush := None |}.
 
-Record lgr := { llevel : N; lsinks : list nat }.
-Record snk := { slevel : N; swrites : nat; sthrow : list nat (* write_log calls (0-based) that throw *) }.
+Record lgr := { llevel : N; lsinks : list nat;
+                lbt : option (bt ev);   (* backtrace storage, created by the first InitBacktrace event *)
+                lbtlvl : N              (* backtrace_flush_level (None = never) *) }.
+Record snk := { slevel : N; swrites : nat; sthrow : list nat (* write_log calls (0-based) that throw *);
+                sfilt : list N          (* user filters: a statement is rejected when its id is divisible by one of these *) }.
+Definition mk_lgr (lvl : N) (ks : list nat) : lgr := {| llevel := lvl; lsinks := ks; lbt := None; lbtlvl := 10 |}.
+Definition mk_snk (lvl : N) (th : list nat) : snk := {| slevel := lvl; swrites := 0; sthrow := th; sfilt := [] |}.
+Definition set_llevel (x : lgr) v := {| llevel := v; lsinks := lsinks x; lbt := lbt x; lbtlvl := lbtlvl x |}.
+Definition set_lbt (x : lgr) b := {| llevel := llevel x; lsinks := lsinks x; lbt := b; lbtlvl := lbtlvl x |}.
+Definition set_lbtlvl (x : lgr) v := {| llevel := llevel x; lsinks := lsinks x; lbt := lbt x; lbtlvl := v |}.
+Definition set_slevel (z : snk) v := {| slevel := v; swrites := swrites z; sthrow := sthrow z; sfilt := sfilt z |}.
+Definition bump_swrites (z : snk) := {| slevel := slevel z; swrites := S (swrites z); sthrow := sthrow z; sfilt := sfilt z |}.
+Definition add_sfilt (z : snk) m := {| slevel := slevel z; swrites := swrites z; sthrow := sthrow z; sfilt := sfilt z ++ [m] |}.
 
 Inductive pc_t :=
 | PIdle
@@ -158,6 +171,7 @@ Inductive fop :=
 | FExit (t : nat)              (* thread ends: context invalidated *)
 | FSetLevel (l : nat) (v : N)  (* logger->set_log_level *)
 | FSetSinkLevel (k : nat) (v : N)
+| FAddFilter (k : nat) (m : N)
 | FTick (d : N).
 
 (* would the macro enqueue at all? (level >= logger level; control events always) *)
@@ -212,6 +226,10 @@ Definition fstep (s : st) (o : fop) : st :=
             let q2 := commit_write (finish_write ideal q1 (esz e)) in
             let x' := set_thr_pend (set_thr_q x q2 (qev x ++ [e])) None false in
             let x'' := match ekind e with KFlush => set_thr_wflush x' (Some (eid e)) | _ => x' end in
+            (* init_backtrace(): backtrace_flush_level is stored right after the request is enqueued *)
+            let s := match ekind e with
+                     | KInitBt _ fl => set_lg s (upd (lg s) (elg e) (set_lbtlvl (lg s (elg e)) fl))
+                     | _ => s end in
             let s' := set_th s (upd (th s) t x'') in
             {| clock := clock s'; th := th s'; registered := registered s'; newflag := newflag s';
                invalid_cnt := invalid_cnt s'; cache := cache s'; pc := pc s'; tsnow := tsnow s'; lg := lg s'; sk := sk s';
@@ -248,8 +266,9 @@ Definition fstep (s : st) (o : fop) : st :=
            nsinks := nsinks s'; nloggers := nloggers s'; flags := flags s'; obs := obs s';
            issued := issued s'; delivered := delivered s'; plog := plog s'; gh := gh s' |}
       else if tvalid x then set_th s (upd (th s) t (set_thr_valid x false)) else s
-  | FSetLevel l v => set_lg s (upd (lg s) l {| llevel := v; lsinks := lsinks (lg s l) |})
-  | FSetSinkLevel k v => set_sk s (upd (sk s) k {| slevel := v; swrites := swrites (sk s k); sthrow := sthrow (sk s k) |})
+  | FSetLevel l v => set_lg s (upd (lg s) l (set_llevel (lg s l) v))
+  | FSetSinkLevel k v => set_sk s (upd (sk s) k (set_slevel (sk s k) v))
+  | FAddFilter k m => if existsb (N.eqb m) (sfilt (sk s k)) || (m =? 0) then s else set_sk s (upd (sk s) k (add_sfilt (sk s k) m))
   end.
 
 (* ------------------------------------------------------------------ backend *)
@@ -292,7 +311,7 @@ Fixpoint read_loop (fuel : nat) (tn : N) (x : thr) (total : N) (notes : list N) 
         then (set_thr_tbuf (set_thr_q x q1 (qev x)) (tbuf x) cap1, total, notes, false)
         else
           match efmt e, ekind e, c_catch_all K with
-          | FOtherThrow, (KLog | KInitBt _ | KFlushBt), false =>
+          | FOtherThrow, (KLog | KInitBt _ _ | KFlushBt), false =>
               (set_thr_tbuf (set_thr_q x q1 (qev x)) (tbuf x) cap1, total, notes, true)
           | _, _, _ =>
               let x1 := set_thr_tbuf (set_thr_q x (finish_read ideal q1 (esz e)) rest) (tbuf x ++ [e]) cap1 in
@@ -319,16 +338,22 @@ Fixpoint active_sinks (s : st) (n : nat) (i : nat) (acc : list nat) : list nat :
 Definition flush_sinks (s : st) : st :=
   add_obs s (flat_map (fun k => [O_FLUSH; N.of_nat k]) (active_sinks s (nloggers s) 0 [])).
 
+(* what reaches the sink: the statement's id, or 0 when its message was replaced by an error text *)
+Definition wid (e : ev) : N := match efmt e with FOk => eid e | _ => 0 end.
+(* Sink::apply_all_filters: the sink's own level filter, then every user filter *)
+Definition sink_accepts (z : snk) (e : ev) : bool :=
+  (slevel z <=? elvl e) && forallb (fun m => negb (wid e mod m =? 0)) (sfilt z).
+
 (* _write_log_statement: the sink loop; a throwing write_log ends it *)
 Fixpoint dispatch (s : st) (e : ev) (ks : list nat) : st * bool :=
   match ks with
   | [] => (s, false)
   | k :: r =>
       let z := sk s k in
-      if slevel z <=? elvl e then
-        let s1 := set_sk s (upd (sk s) k {| slevel := slevel z; swrites := S (swrites z); sthrow := sthrow z |}) in
+      if sink_accepts z e then
+        let s1 := set_sk s (upd (sk s) k (bump_swrites z)) in
         if memb (swrites z) (sthrow z) then (s1, true)
-        else dispatch (add_obs s1 [O_WRITE; N.of_nat k; (match efmt e with FOk => eid e | _ => 0 end); elvl e]) e r
+        else dispatch (add_obs s1 [O_WRITE; N.of_nat k; wid e; elvl e]) e r
       else dispatch s e r
   end.
 
@@ -393,6 +418,53 @@ Fixpoint min_front (s : st) (l : list nat) (best : option (nat * ev)) : option (
       end
   end.
 
+(* BacktraceStorage::process with the dispatching callback. With the per-event try/catch (F6) a throwing
+   sink is reported and the replay goes on; without it the exception leaves process() before clear():
+   the storage keeps everything and the rest is not replayed now. *)
+Fixpoint replay_events (s : st) (ks : list nat) (l : list (option ev)) : st * bool :=
+  match l with
+  | [] => (s, false)
+  | None :: r => replay_events s ks r              (* out-of-bounds slot: nothing to dispatch in the model *)
+  | Some e :: r =>
+      let (s1, threw) := dispatch s e ks in
+      if threw then
+        if c_bt_catch K then replay_events (add_obs s1 [O_NOTE; 5; 0]) ks r
+        else (s1, true)
+      else replay_events s1 ks r
+  end.
+Definition replay_bt (s : st) (l : nat) : st * bool :=
+  match lbt (lg s l) with
+  | None => (s, false)
+  | Some b =>
+      let (b', outs) := process (c_bt K) b in
+      let (s1, threw) := replay_events s (lsinks (lg s l)) outs in
+      if threw then (s1, true)     (* storage untouched: process() never reached clear() *)
+      else (set_lg s1 (upd (lg s1) l (set_lbt (lg s1 l) (Some b'))), false)
+  end.
+
+(* _process_transit_event for one event (before it is popped) *)
+Definition process_event (s : st) (e : ev) : st :=
+  let L := elg e in
+  match ekind e with
+  | KLog =>
+      if elvl e =? LV_BACKTRACE then
+        match lbt (lg s L) with
+        | Some b => set_lg s (upd (lg s) L (set_lbt (lg s L) (Some (fst (store (c_bt K) e b)))))
+        | None => add_obs s [O_NOTE; 6; 0]      (* QuillError: init_backtrace needs to be called first *)
+        end
+      else
+        let (s', threw) := dispatch s e (lsinks (lg s L)) in
+        if threw then add_obs s' [O_NOTE; 5; 0]
+        else if lbtlvl (lg s' L) <=? elvl e then
+          let (s2, t2) := replay_bt s' L in if t2 then add_obs s2 [O_NOTE; 5; 0] else s2
+        else s'
+  | KFlush => flush_sinks s
+  | KInitBt cap _ =>
+      let b := match lbt (lg s L) with Some b => b | None => bt_init end in
+      set_lg s (upd (lg s) L (set_lbt (lg s L) (Some (fst (set_capacity cap b)))))
+  | KFlushBt => let (s2, t2) := replay_bt s L in if t2 then add_obs s2 [O_NOTE; 5; 0] else s2
+  end.
+
 (* pop_front of the processed event's buffer (+ ghosts) *)
 Definition pop_event (s : st) (u : nat) (e : ev) : st :=
   let x := th s u in
@@ -410,14 +482,7 @@ Definition process_min (s : st) : st * bool :=
   match min_front s (cache s) None with
   | None => (s, false)
   | Some (u, e) =>
-      let s1 :=
-        match ekind e with
-        | KLog =>
-            let (s', threw) := dispatch s e (lsinks (lg s (elg e))) in
-            if threw then add_obs s' [O_NOTE; 5; 0] else s'
-        | KFlush => flush_sinks s
-        | _ => s
-        end in
+      let s1 := process_event s e in
       let s3 := pop_event s1 u e in
       match ekind e with
       | KFlush => (set_flag (cleanup_ctx s3) (eid e), true)
@@ -452,7 +517,6 @@ Definition buffered (s : st) : N := fold_right (fun u a => N.of_nat (length (tbu
 
 Definition MAXTS : N := 2 ^ 64 - 1.
 
-Inductive bop := BStep.   (* the backend is deterministic: one micro-step, chosen by the program counter *)
 
 Definition bstep (s : st) : st :=
   match pc s with
